@@ -281,7 +281,7 @@ def _backtrack_line_search(X, y, w, Xw, fit_intercept, datafit, penalty, delta_w
     n_features_ws = sum([grp_ptr[g+1] - grp_ptr[g] for g in ws])
 
     # TODO: could be improved by passing in w[ws]
-    old_penalty_val = penalty.value(w)
+    old_penalty_val = penalty.value(w[:n_features])
 
     # try step = 1, 1/2, 1/4, ...
     for _ in range(MAX_BACKTRACK_ITER):
